@@ -1,4 +1,5 @@
 import RemocModel.Link.CloseInv
+import RemocModel.Link.Relay
 import RemocModel.Props.C01
 set_option linter.unusedSimpArgs false
 
@@ -108,5 +109,53 @@ example : (run c11 (init c11) closeRun).completed = [[1, 2], [3]] ∧
     (run c11 (init c11) closeRun).delivered = [[1, 2], [3]] ∧
     (run c11 (init c11) closeRun).s.closed = some true ∧
     Out.eos ∈ (run c11 (init c11) closeRun).outs := by decide
+
+/-! ### across a port forwarder (`chmux::forward`, `RemocModel/Link/Relay.lean`) -/
+
+/-- **The forwarder relays a prefix.**  What the forwarder completed sending downstream is, in order,
+a prefix of the messages it received upstream: it never invents, duplicates, reorders or skips. -/
+theorem relay_forwarded_prefix (ca cb : Cfg) (r : Relay) (h : RReachable ca cb r) :
+    ∃ k, k ≤ r.fwd ∧ r.b.completed = r.a.delivered.take k := by
+  obtain ⟨_, _, _, _, k, hk, hc, _⟩ := rinvariant_reachable ca cb r h
+  exact ⟨k, hk, hc⟩
+
+/-- **Exactly-once, in order, byte-exact across a forwarder.**  In every reachable state of origin link,
+forwarder and destination link, what the destination obtained is a prefix of the sends completed at the
+origin — whatever the sizes, configurations of both links, schedules, cancellations at the origin, closes
+and drops on either link, and wherever the forwarder stops. -/
+theorem relay_exact (ca cb : Cfg) (r : Relay) (h : RReachable ca cb r) :
+    ∃ rest, r.b.delivered ++ rest = r.a.completed := by
+  obtain ⟨ha, hb⟩ := relay_links_reachable ca cb r h
+  obtain ⟨k, _, hk⟩ := relay_forwarded_prefix ca cb r h
+  obtain ⟨r1, h1⟩ := delivery_exact cb r.b hb
+  obtain ⟨r2, h2⟩ := delivery_exact ca r.a ha
+  refine ⟨r1 ++ (r.a.delivered.drop k ++ r2), ?_⟩
+  rw [← List.append_assoc, h1, hk, ← List.append_assoc, List.take_append_drop, h2]
+
+/-- **Complete at quiescence.**  With nothing in flight or queued on either link, the forwarder idle
+between sends and still running, and both receiving callers done with their current message, the
+destination has obtained every send completed at the origin. -/
+theorem relay_complete (ca cb : Cfg) (r : Relay) (h : RReachable ca cb r)
+    (ha1 : r.a.chan = []) (ha2 : r.a.r.queue = []) (ha3 : pendingMsg r.a = [])
+    (hb1 : r.b.chan = []) (hb2 : r.b.r.queue = []) (hb3 : pendingMsg r.b = [])
+    (hrun : r.stopped = false) (hidle : r.b.s.cur = none) (hall : r.fwd = r.a.delivered.length) :
+    r.b.delivered = r.a.completed := by
+  obtain ⟨ha, hb⟩ := relay_links_reachable ca cb r h
+  obtain ⟨_, _, _, _, k, _, hc, hr⟩ := rinvariant_reachable ca cb r h
+  have hk : k = r.fwd := by
+    rcases hr hrun with ⟨_, h2⟩ | ⟨h1, _, _⟩
+    · exact h2
+    · simp [hidle] at h1
+  rw [delivery_complete cb r.b hb hb1 hb2 hb3, hc, hk, hall, List.take_length,
+      delivery_complete ca r.a ha ha1 ha2 ha3]
+
+
+/-- non-vacuity: a two-byte message travels origin → forwarder → destination -/
+def relayCfg : Cfg := { chunk := 4, limit := 8, maxData := 16, maxPorts := 8 }
+def relayRun : List RLabel :=
+  [.up (.startSend [1, 2]), .up .request, .up .emit, .up .muxRecv, .up .recvAny,
+   .relayStart, .down .request, .down .emit, .down .muxRecv, .down .recvAny]
+example : (rrun relayCfg relayCfg (rinit relayCfg relayCfg) relayRun).b.delivered = [[1, 2]] ∧
+    (rrun relayCfg relayCfg (rinit relayCfg relayCfg) relayRun).a.completed = [[1, 2]] := by decide
 
 end Remoc.Link
